@@ -122,12 +122,15 @@ def dynamic_models(rng, n):
     out = []
     for i in range(n):
         kind, text = rng.choice(uses)
-        dp = rng.choice(decl_params)
-        tp = dp if rng.random() < 0.7 else rng.choice(decl_params)
-        if rng.random() < 0.25:
+        # most models are consistent apart from the one use under test, so that it reaches the type checker and the
+        # feature checker; the others also vary the declaration / definition pair
+        clean = rng.random() < 0.6
+        dp = rng.choice(decl_params[:5] if clean else decl_params)
+        tp = dp if clean or rng.random() < 0.7 else rng.choice(decl_params)
+        if rng.random() < (0.1 if clean else 0.25):
             text, _ = faults.token_faults(text, rng, 1)
         gdecl = "int n; clock c;\n"
-        order = rng.random()
+        order = rng.random() * (0.85 if clean else 1.0)
         if order < 0.85:
             gdecl = "dynamic D(%s);\n" % dp + gdecl
         if order > 0.95:
@@ -147,7 +150,7 @@ def dynamic_models(rng, n):
                   '<init ref="d0"/><transition><source ref="d0"/><target ref="d0"/><label kind="assignment">%s</label>'
                   '</transition></template>') % ("<parameter>%s</parameter>" % xmlgen.esc(tp) if tp else "", xmlgen.esc(tdecl),
                                                   rng.choice(["x = 1", "exit()", "spawn D(1)", "x = numOf(D)"]))
-        main_first = rng.random() < 0.3
+        main_first = clean or rng.random() < 0.3      # (the defining template has to come first to be usable)
         xml = xmlgen.simple_model(decl=gdecl, locations=[("id0", "A", [("invariant", inv)] if inv else [], None)],
                                   edges=[("id0", "id0", labs)], extra_templates=dtempl, queries=q)
         if main_first:
